@@ -41,6 +41,16 @@ def plan(tier):
     return g
 
 
+def prefix_plan(tier):
+    """C07 only: read-ahead needs dataset lengths well above the buffer size.  These groups ask the invariant for every execution
+    *prefix* of <= K steps with n up to 6/8 (no completeness threshold: the claim is bounded by steps, not by termination)."""
+    if tier == 'quick':
+        return [dict(system='stp', backend=None, N=6, B=3, Wk=1, K=34, B_exact=b, prefix=True) for b in (1, 2, 3)]
+    g = [dict(system='stp', backend=None, N=8, B=4, Wk=1, K=44, B_exact=b, prefix=True) for b in (1, 2, 3, 4)]
+    g += [dict(system='lpm', backend='t', N=5, B=3, Wk=2, K=44, B_exact=b, prefix=True) for b in (1, 2, 3)]
+    return g
+
+
 def gname(g):
     return 'single_thread_prefetch' if g['system'] == 'stp' else f'lazy_parallel_map[{g["backend"]}]'
 
@@ -141,15 +151,18 @@ def custom_replay(payload):
     return ('fails' if status == 'observed' else 'holds'), text
 
 
-def run(pid, tier, seed, ctx, modes_for, known_carve=None, witnesses=2):
+def run(pid, tier, seed, ctx, modes_for, known_carve=None, witnesses=2, extra_groups=None):
     """modes_for(group) -> list of property queries.  known_carve: {(system, backend, mode): finding id}"""
     log = ctx['log']
-    groups = plan(tier)
+    groups = plan(tier) + list(extra_groups or [])
     specs = []
     tmo = 170 if tier == 'quick' else 1500
     for gi, g in enumerate(groups):
-        for mode in ['threshold', 'reach'] + list(modes_for(g)):
-            specs.append(dict(g, mode=mode, timeout=tmo, gi=gi))
+        pre = ['readahead_tight'] if g.get('prefix') else ['threshold', 'reach']
+        for mode in pre + list(modes_for(g)):
+            spec = dict(g, mode=mode, timeout=tmo, gi=gi)
+            spec.pop('prefix', None)
+            specs.append(spec)
     log(f'[{pid}] E2: {len(specs)} BMC queries over {len(groups)} generated transition systems')
     t0 = time.time()
     results = bmcrun.run_queries(specs, ctx['nproc'], log=log)
@@ -162,8 +175,13 @@ def run(pid, tier, seed, ctx, modes_for, known_carve=None, witnesses=2):
     known_seen = []
     for gi, g in enumerate(groups):
         rs = by_group[gi]
-        th = [r for r in rs if r['spec']['mode'] == 'threshold'][0]
-        reach = [r for r in rs if r['spec']['mode'] == 'reach'][0]
+        if g.get('prefix'):
+            # step-bounded claim: no termination needed, hence no threshold / reach / witness replay for this group
+            th = dict(result='unsat', system=rs[0].get('system'))
+            reach = [r for r in rs if r['spec']['mode'] == 'readahead_tight'][0]     # must be sat: the bound is reached within K steps
+        else:
+            th = [r for r in rs if r['spec']['mode'] == 'threshold'][0]
+            reach = [r for r in rs if r['spec']['mode'] == 'reach'][0]
         desc = th.get('system') or reach.get('system') or {}
         systems_desc[gname(g)] = desc
         nloc = sum(desc.get('locations', {}).values()) if desc else 0
@@ -190,7 +208,7 @@ def run(pid, tier, seed, ctx, modes_for, known_carve=None, witnesses=2):
             out['harness_errors'].append(f'vacuous: {bmcrun.label(reach["spec"])} is {reach["result"]} (no complete run exists in the model)')
             continue
         # translator validation: the real code must follow the witness schedule location by location
-        if g['system'] == 'stp' or g['backend'] in ('t', 'thread'):
+        if not g.get('prefix') and (g['system'] == 'stp' or g['backend'] in ('t', 'thread')):
             from engine.bmc import gate
             obs = gate.replay_stp(reach['model']) if g['system'] == 'stp' else gate.replay_lpm_thread(reach['model'])
             out['validated'] += 1
@@ -204,8 +222,8 @@ def run(pid, tier, seed, ctx, modes_for, known_carve=None, witnesses=2):
             out['states'] += nloc * (g['K'] + 1)
             out['transitions'] += ncmd * g['K']
             sample = dict(query=bmcrun.label(r['spec']), verdict=r['result'], solver_s=r.get('secs'))
-            if mode in ('threshold', 'reach'):
-                if mode == 'reach' or threshold_ok:
+            if mode in ('threshold', 'reach', 'readahead_tight'):
+                if mode != 'threshold' or threshold_ok:
                     out['discharged'] += 1
                 if len(out['samples']) < 14:
                     out['samples'].append(sample)
@@ -239,7 +257,9 @@ def run(pid, tier, seed, ctx, modes_for, known_carve=None, witnesses=2):
             if len(out['samples']) < 14:
                 out['samples'].append(sample)
     out['known_lines'] = known_seen
-    out['coverage'] = dict(e2_systems=systems_desc, e2_bounds=[dict(system=gname(g), **{k: g[k] for k in ('N', 'B', 'Wk', 'K')}) for g in groups],
+    out['coverage'] = dict(e2_systems=systems_desc,
+                           e2_bounds=[dict(system=gname(g), claim=('every execution prefix of <= K steps' if g.get('prefix') else 'every execution (threshold query)'),
+                                           **{k: g.get(k) for k in ('N', 'B', 'Wk', 'K', 'B_exact')}) for g in groups],
                            e2_wall_s=round(time.time() - t0, 1), e2_known_seen=known_seen)
     out['solver_time_s'] = round(out['solver_time_s'], 1)
     return out
